@@ -115,11 +115,11 @@ def eval_table_case(case, fail):
             return False
         if np.any(g < -1e-15):
             fail('table_nonnegative', f'P({s}) has negative entries')
-        if np.max(np.abs(g - want[s])) > 1e-12:
+        if not np.max(np.abs(g - want[s])) <= 1e-12:
             i = int(np.argmax(np.abs(g - want[s])))
             fail('table_value', f'P({s}) on qubit {i}: {g[i]} != {want[s][i]}')
     tot = sum(np.asarray(got[s], dtype=float) for s in 'IXYZ')
-    if np.max(np.abs(tot - 1)) > 1e-12:
+    if not np.max(np.abs(tot - 1)) <= 1e-12:
         fail('table_normalised', f'rows sum to {tot.min()}..{tot.max()}')
     if em.direction != tuple(r) and list(em.direction) != list(r):
         fail('direction_attr', f'{em.direction} != {r}')
@@ -142,7 +142,7 @@ def eval_table_case(case, fail):
         em_s = PauliErrorModel(*r_s, deformation_name=n_s, deformation_kwargs=dict(k_s))
         want_s = expected_table(code, r_s, p, n_s, k_s)
         got_s = dict(zip('IXYZ', em_s.probability_distribution(code, p)))
-        if any(np.max(np.abs(np.asarray(got_s[c], float) - want_s[c])) > 1e-12 for c in 'IXYZ'):
+        if any(not np.max(np.abs(np.asarray(got_s[c], float) - want_s[c])) <= 1e-12 for c in 'IXYZ'):
             fail('table_value_second_model_same_code',
                  f'model r={r_s} {n_s} {k_s} queried after r={r} {name} {kwargs} on the same '
                  f'code object and rate gets a wrong table')
@@ -150,11 +150,11 @@ def eval_table_case(case, fail):
         ws = em_s.get_weights(code, p)
         qs = want_s['X'] + want_s['Y']
         mid = (qs > 1e-9) & (qs < 1 - 1e-9)
-        if mid.any() and np.max(np.abs(np.asarray(ws[0], float)[mid] - np.log((1 - qs[mid]) / qs[mid]))) > 1e-9:
+        if mid.any() and not np.max(np.abs(np.asarray(ws[0], float)[mid] - np.log((1 - qs[mid]) / qs[mid]))) <= 1e-9:
             fail('weights_second_model_same_code', f'model r={r_s} {n_s} {k_s}')
             break
     again = dict(zip('IXYZ', em.probability_distribution(code, p)))
-    if any(np.max(np.abs(np.asarray(again[c], float) - want[c])) > 1e-12 for c in 'IXYZ'):
+    if any(not np.max(np.abs(np.asarray(again[c], float) - want[c])) <= 1e-12 for c in 'IXYZ'):
         fail('table_stable_after_other_models', 'table of the first model changed after others were queried')
 
     # --- sampler, deterministic preimage measure --------------------------
@@ -224,7 +224,7 @@ def eval_table_case(case, fail):
             continue
         mid = (q >= 1e-9) & (q <= 1 - 1e-9)
         ref = np.log((1 - q[mid]) / q[mid])
-        if mid.any() and np.max(np.abs(w[mid] - ref) / np.maximum(1, np.abs(ref))) > 1e-9:
+        if mid.any() and not np.max(np.abs(w[mid] - ref) / np.maximum(1, np.abs(ref))) <= 1e-9:
             i = int(np.argmax(np.abs(w[mid] - ref)))
             fail('weights_llr', f'weights_{nm}: {w[mid][i]} != log((1-q)/q) = {ref[i]} '
                  f'for q={q[mid][i]}')
@@ -249,7 +249,7 @@ def eval_table_case(case, fail):
                 for f in attr['fault_ids']:
                     reported[int(f)] = float(attr['weight'])
             for f, w in reported.items():
-                if abs(w - ref[f]) > 1e-9 * max(1, abs(ref[f])):
+                if not abs(w - ref[f]) <= 1e-9 * max(1, abs(ref[f])):
                     fail('matching_edge_weight',
                          f'matcher_{nm} edge of qubit {f} has weight {w}, flip-marginal LLR is {ref[f]}')
                     break
@@ -309,15 +309,15 @@ def eval_table_case(case, fail):
             if c2.is_css:
                 gx = np.asarray(bp.x_decoder.channel_probs, float)
                 gz = np.asarray(bp.z_decoder.channel_probs, float)
-                if np.max(np.abs(gx - qx2)) > 1e-12:
+                if not np.max(np.abs(gx - qx2)) <= 1e-12:
                     fail('bp_channel_probs_x', f'x_decoder.channel_probs != p_X+p_Y '
                          f'({gx[:4]} vs {qx2[:4]})')
-                if np.max(np.abs(gz - qz2)) > 1e-12:
+                if not np.max(np.abs(gz - qz2)) <= 1e-12:
                     fail('bp_channel_probs_z', f'z_decoder.channel_probs != p_Z+p_Y')
                 # the X-error decoder must sit on the Z-check matrix
             else:
                 gg = np.asarray(bp.decoder.channel_probs, float)
-                if np.max(np.abs(gg - np.concatenate([qz2, qx2]))) > 1e-12:
+                if not np.max(np.abs(gg - np.concatenate([qz2, qx2]))) <= 1e-12:
                     fail('bp_channel_probs_noncss', 'decoder.channel_probs != [q_Z | q_X]')
             # Bayes update
             corr = (rs.random(n) < 0.5).astype(int)
@@ -335,7 +335,7 @@ def eval_table_case(case, fail):
                         if den <= 0:
                             continue
                         ref_u = pa[i] / den
-                    if abs(got_u[i] - ref_u) > 1e-12:
+                    if not abs(got_u[i] - ref_u) <= 1e-12:
                         fail('bp_bayes_update', f'{direction} qubit {i} c={corr[i]}: '
                              f'{got_u[i]} != {ref_u}')
                         break
